@@ -185,6 +185,7 @@ type procRunner struct {
 	stdout, stderr     io.ReadCloser
 	hostDir, pluginDir string // see xlate
 	forward            bool   // see forwardTCP
+	forwardName        bool   // ... and the translated address names the host (localhost:port) instead of giving an IP literal
 }
 
 func newProcRunner(cmd *exec.Cmd) (runner.Runner, error) {
@@ -266,7 +267,11 @@ func (r *procRunner) Diagnose(context.Context) string { return "" }
 // path (pluginDir, here a symlink to hostDir) and, like a bind mount, nothing outside it. Identity when unset.
 func (r *procRunner) PluginToHost(n, a string) (string, string, error) {
 	if r.forward && n == "unix" {
-		return forwardTCP(a)
+		fn, fa, err := forwardTCP(a)
+		if err == nil && r.forwardName {
+			fa = strings.Replace(fa, "127.0.0.1:", "localhost:", 1)
+		}
+		return fn, fa, err
 	}
 	return r.xlate(n, a, r.pluginDir, r.hostDir, "plugin->host")
 }
@@ -508,7 +513,7 @@ func RunCell(c *Cell) (res *Result) {
 					cmd.Env = append(cmd.Env, cmd0.Env...)
 					return newProcRunner(cmd)
 				}
-			case "runner-fwd": // a runner that reaches the plugin's sockets through TCP port-forwards
+			case "runner-fwd", "runner-fwdname": // a runner that reaches the plugin's sockets through TCP port-forwards (fwdname: published as localhost:port)
 				cmd0 := mkCmd()
 				cfg.UnixSocketConfig = &plugin.UnixSocketConfig{TempDir: hostTmp}
 				cfg.RunnerFunc = func(l hclog.Logger, cmd *exec.Cmd, tmp string) (runner.Runner, error) {
@@ -517,6 +522,7 @@ func RunCell(c *Cell) (res *Result) {
 					r, err := newProcRunner(cmd)
 					if err == nil {
 						r.(*procRunner).forward = true
+						r.(*procRunner).forwardName = c.Host.Launch == "runner-fwdname"
 					}
 					return r, err
 				}
